@@ -60,7 +60,7 @@ Qed.
 
 (* do_send keeps Stop when the socket stays ACCEPTED *)
 Lemma do_send_stop c e w x w' :
-  Core w -> Stop c w -> st w = Accepted -> match e with EText _ | EBytes _ => True | _ => False end ->
+  Core w -> Stop c w -> st w = Accepted -> match e with EText _ _ | EBytes _ _ => True | _ => False end ->
   do_send e w = (x, w') -> Stop c w'.
 Proof.
   intros H HS Hst He Hs.
@@ -122,18 +122,19 @@ Proof.
   - unfold op_send_text in Hs. destruct (require_accepted w) eqn:Er; [injection Hs as <- <-; exact HS|].
     assert (Hst : st w = Accepted) by (unfold require_accepted in Er; destruct (st w); congruence).
     destruct p; [|injection Hs as <- <-; exact HS]. unfold op_send in Hs.
-    destruct (do_send (EText n) w) as [x w1] eqn:Ed.
-    pose proof (do_send_stop c (EText n) _ _ _ H HS Hst I Ed). destruct x; injection Hs as <- <-; assumption.
+    destruct (strish k); [|injection Hs as <- <-; exact HS].
+    destruct (do_send (EText n k) w) as [x w1] eqn:Ed.
+    pose proof (do_send_stop c (EText n k) _ _ _ H HS Hst I Ed). destruct x; injection Hs as <- <-; assumption.
   - unfold op_send_data in Hs. destruct (require_accepted w) eqn:Er; [injection Hs as <- <-; exact HS|].
     assert (Hst : st w = Accepted) by (unfold require_accepted in Er; destruct (st w); congruence).
     destruct p; [|injection Hs as <- <-; exact HS]. unfold op_send in Hs.
-    destruct (do_send (EBytes n) w) as [x w1] eqn:Ed.
-    pose proof (do_send_stop c (EBytes n) _ _ _ H HS Hst I Ed). destruct x; injection Hs as <- <-; assumption.
+    destruct (do_send (EBytes n KExact) w) as [x w1] eqn:Ed.
+    pose proof (do_send_stop c (EBytes n KExact) _ _ _ H HS Hst I Ed). destruct x; injection Hs as <- <-; assumption.
   - unfold op_send_media in Hs. destruct (require_accepted w) eqn:Er; [injection Hs as <- <-; exact HS|].
     assert (Hst : st w = Accepted) by (unfold require_accepted in Er; destruct (st w); congruence).
     unfold op_send in Hs.
     destruct (do_send _ w) as [x w1] eqn:Ed.
-    assert (He : match (if bin then EBytes n else EText n) with EText _ | EBytes _ => True | _ => False end)
+    assert (He : match (if bin then EBytes n KExact else EText n KExact) with EText _ _ | EBytes _ _ => True | _ => False end)
       by (destruct bin; exact I).
     pose proof (do_send_stop c _ _ _ _ H HS Hst He Ed). destruct x; injection Hs as <- <-; assumption.
   - eapply stop_frame; [exact HS | eapply op_recv_frame; eauto].
